@@ -13,8 +13,9 @@ put_mat(const char *key, unsigned char *a, int n)
 }
 
 /* ---- sweep ---- */
-#define LEN 96
-static unsigned char data[256][LEN];
+#define MAXLEN 256
+static int LEN = 96; /* block length; argv[5] overrides it (<= MAXLEN) */
+static unsigned char data[256][MAXLEN];
 static long g_sets, g_inv_fail, g_mismatch, g_sampled;
 static int sample_every;
 
@@ -24,7 +25,7 @@ try_survivors(unsigned char *enc, int m, int k, int *surv, int *fail_kind)
 {
         static unsigned char b[128 * 128], inv[128 * 128], b2[128 * 128], dec[128 * 128], tbls[128 * 128 * 32];
         unsigned char *srcp[128], *outp[128];
-        static unsigned char outbuf[128][LEN];
+        static unsigned char outbuf[128][MAXLEN];
         int i, j, t, nerr = 0, err[256], is_surv[256] = { 0 };
         for (i = 0; i < k; i++) {
                 is_surv[surv[i]] = 1;
@@ -170,6 +171,8 @@ main(int argc, char **argv)
                 return 3;
         vh_rng_s = (uint32_t) atoi(argv[3]);
         sample_every = atoi(argv[4]);
+        if (argc > 5 && atoi(argv[5]) > 0 && atoi(argv[5]) <= MAXLEN)
+                LEN = atoi(argv[5]);
         while (vh_rd_opt(in, &t)) {
                 if (t == 1 || t == 2) { /* generator dump: m k */
                         int m = vh_rd(in), k = vh_rd(in);
